@@ -19,7 +19,7 @@ TEXT = ("Thin claim: exactness of the Myers edit script for all pairs of arrays 
         "base revision and the value returned are the same local, a hit returns the cached order unmodified, the cache "
         "guard is held across the whole reconstruction, keys are revisions (content-derived, C19), and only full orders "
         "are cached, and a cached order is never handed out mutably or removed."
-        " E2e: the diff routine receives the two input sequences themselves, not derived keys. E2f: a window of the inputs handed to the diff routine has a trimmed tail measured on what the trimmed head left over (dependent bounds). E3e: on every path the order the edit scripts start from is assigned from one ancestor only.")
+        " E2e: the diff routine receives the two input sequences themselves, not derived keys. E2f: a window of the inputs handed to the diff routine has a trimmed tail measured on what the trimmed head left over (dependent bounds). E3e: on every path the order the edit scripts start from is assigned from one ancestor only. E2g: every array literal that starts with an op-code is built per element of the diff routine's result.")
 TECHNIQUE = 'static analysis over rustc MIR: diff-base = recorded parent (provenance), op-code/operand table agreement of edit-script writer and applier, cache transparency (who-may-write, held guard, lookup keys), history-walk must-pass rules'
 TRUSTED = ["rustc nightly MIR", "yavomrs::myers_unfilled produces a correct edit script", "Vec::drain / splice semantics", "C19"]
 
@@ -264,6 +264,28 @@ def run(facts, res):
                               "make_diff_patch hands the diff routine sequences derived from its inputs (%s) instead of (old, new) themselves: the edit script "
                               "describes the derived sequences, and elements the derivation identifies are silently not replaced" % which, s_.loc())
         res.floor("E2", "diff routine call sites in make_diff_patch", n2e, 1)
+        # E2g: every operation of the script restates one operation of the diff routine: the array literals that start with an op-code are
+        # built per element of the routine's result (inside the loop / closure over it). A second way to produce a script (a "rewrite
+        # the whole array" shortcut for long scripts) needs its own arithmetic - a deletion sized by the wrong array leaves stale elements.
+        from ..common import members_of as _mo16
+        opcodes = {facts.const_str("constants::PATCH_INSERT"), facts.const_str("constants::PATCH_DELETE")} - {None}
+        n2g = 0
+        for m_ in _mo16(facts, w):
+            for (n_, els_, ln_, bi_) in tables.array_literals(m_):
+                if not any(x[0] == "const" and x[1] == "str" and x[2] in opcodes for x in walk(els_[0])):
+                    continue
+                n2g += 1
+                per_op = m_.kind == "closure"
+                for l in lits_of(m_, bi_, facts):
+                    if l.kind == "variant" and l.variants == {"Some"} and callee_name(peel(l.term)) == "next" and \
+                            any(x[0] == "call" and callee_name(x).startswith("myers") for x in walk(l.term)):
+                        per_op = True
+                res.instance("E2", "make_diff_patch: the script operation built at line %d restates one operation of the diff routine: %s" % (ln_, per_op), m_.loc(ln_))
+                if not per_op:
+                    res.violation("E2", "diff-maker|operation-not-from-the-diff",
+                                  "make_diff_patch builds a script operation outside the loop over the diff routine's operations: that operation's "
+                                  "position and count are not the routine's", m_.loc(ln_))
+        res.floor("E2", "script operations built in make_diff_patch", n2g, 2)
 
     # ------------------------------------------------------------------ E3
     rb = R.body("rebuilder")
